@@ -383,6 +383,12 @@ func isLoadOf(v ssa.Value, ref string) (ssa.Value, bool) {
 // isParam reports whether v is the i-th parameter of fn (receiver counts as 0 for methods).
 func isParam(fn *ssa.Function, v ssa.Value, i int) bool {
 	v = strip(v)
+	if recvDropped[fn] {
+		if i == 0 {
+			return false
+		}
+		i--
+	}
 	return i < len(fn.Params) && v == ssa.Value(fn.Params[i])
 }
 
@@ -643,4 +649,20 @@ func (w *World) implicitFormatCallees(site ssa.CallInstruction, callee *ssa.Func
 		}
 	}
 	return out
+}
+
+
+// paramOf is the i-th parameter of fn counted as on the pinned tree (receiver = 0); nil when there is none (a method
+// that became a plain function has no parameter 0 any more).
+func paramOf(fn *ssa.Function, i int) ssa.Value {
+	if recvDropped[fn] {
+		if i == 0 {
+			return nil
+		}
+		i--
+	}
+	if i < 0 || i >= len(fn.Params) {
+		return nil
+	}
+	return fn.Params[i]
 }
